@@ -201,23 +201,35 @@ def strip_comments(src):
     return re.sub(r"--.*", "", src)
 
 
-def lean_sources():
-    out = []
-    for sub in ("SmrtVerif", "Drivers", "Audit"):
-        out += sorted((LEAN / sub).rglob("*.lean"))
-    return out
+def lean_sources(roots=None):
+    """the Lean files of this project that the given root modules import, transitively (all files when roots is None)"""
+    if roots is None:
+        out = []
+        for sub in ("SmrtVerif", "Drivers", "Audit"):
+            out += sorted((LEAN / sub).rglob("*.lean"))
+        return out
+    seen, todo = {}, list(roots)
+    while todo:
+        mod = todo.pop()
+        f = LEAN / (mod.replace(".", "/") + ".lean")
+        if mod in seen or not f.exists():
+            continue
+        seen[mod] = f
+        for m in re.findall(r"^import\s+(SmrtVerif\.[\w.]+)", f.read_text(), re.M):
+            todo.append(m)
+    return sorted(seen.values())
 
 
-def forbidden_hits():
+def forbidden_hits(roots=None):
     hits = []
-    for f in lean_sources():
+    for f in lean_sources(roots):
         for i, l in enumerate(strip_comments(f.read_text()).split("\n")):
             if FORBIDDEN.search(l):
                 hits.append(f"{f.relative_to(LEAN)}:{i+1}: {l.strip()[:100]}")
     return hits
 
 
-def audit(prop):
+def audit(prop, extra_roots=None):
     """`#print axioms` for every property theorem of `prop`; returns (ok, {theorem: [axioms]}, problems)"""
     thms = theorems_of(prop)
     body = f"import SmrtVerif.Props.{prop}\n" + "".join(f"#print axioms {t}\n" for t in thms)
@@ -238,7 +250,9 @@ def audit(prop):
             problems.append(f"{t}: non-standard axioms {sorted(set(res[t]) - STD_AXIOMS)}")
     if p.returncode != 0:
         problems.append("audit file failed to elaborate: " + out[-500:])
-    problems += ["forbidden construct: " + h for h in forbidden_hits()]
+    # every project file the property's theorems and driver depend on must be free of sorry / axiom / native_decide …
+    roots = [f"SmrtVerif.Props.{prop}"] + list(extra_roots or [])
+    problems += ["forbidden construct: " + h for h in forbidden_hits(roots)]
     return (not problems), res, problems
 
 
